@@ -624,7 +624,21 @@ func (f *c06Fix) checkState(step int, phase string, cur c06Dump) {
 // ---------------------------------------------------------------------------------------------------------------------
 // the validity predicate over an admitted transaction (H = model BEFORE the admission)
 
+// The allowed transaction signing algorithms per the protocol specification (RFC004 §3.1: "alg MUST be one of PS256, PS384,
+// PS512, ES256, ES384 or ES512"). Deliberately the harness's own list: independent of dag.allowedAlgos and of the node-wide
+// crypto/jwx.SupportedAlgorithms (which also holds EdDSA, and ES256K with a build tag).
 var c06AllowedAlgs = map[string]bool{"ES256": true, "ES384": true, "ES512": true, "PS256": true, "PS384": true, "PS512": true}
+
+// c06AlgClass keeps violation signatures stable: registered JWS algorithm names as they are, anything else "other".
+func c06AlgClass(alg any) string {
+	s, _ := alg.(string)
+	for _, k := range []string{"none", "HS256", "HS384", "HS512", "RS256", "RS384", "RS512", "EdDSA", "ES256K", "ES256", "ES384", "ES512", "PS256", "PS384", "PS512"} {
+		if s == k {
+			return k
+		}
+	}
+	return "other"
+}
 
 func (f *c06Fix) checkAdmitted(step int, what string, tx Transaction, data, payload []byte) {
 	x := f.x
@@ -653,7 +667,7 @@ func (f *c06Fix) checkAdmitted(step int, what string, tx Transaction, data, payl
 	hd := d.hdr
 	alg, _ := hd["alg"].(string)
 	if !c06AllowedAlgs[alg] {
-		bad("alg-not-allowed", "alg is %v", hd["alg"])
+		bad("alg-not-allowed:"+c06AlgClass(hd["alg"]), "alg is %v, the specification allows ES256, ES384, ES512, PS256, PS384, PS512 only", hd["alg"])
 	}
 	for _, name := range []string{"sigt", "ver", "lc"} {
 		if v, ok := hd[name]; !ok {
@@ -694,6 +708,11 @@ func (f *c06Fix) checkAdmitted(step int, what string, tx Transaction, data, payl
 			bad("kid-not-as-of-prevs", "none of the referenced transactions produced a version of the signer's document that lists kid %q", kid)
 		default:
 			pub = p
+		}
+	}
+	if pub != nil && c06AllowedAlgs[alg] {
+		if kt := c06AlgKeyMismatch(alg, pub); kt != "" {
+			bad("alg-key-mismatch:"+alg+":"+kt, "alg %s is not defined for the designated %s key (RFC 7518)", alg, kt)
 		}
 	}
 	if pub != nil && c06AllowedAlgs[alg] && !c06VerifyRaw(alg, pub, d.signingInput, d.sig) {
